@@ -130,3 +130,63 @@ package core
 //@   at call buildFinalError 1 assert attemptCount == len(endpoints) && attempts == old(attempts) + len(endpoints)
 //@   ensures attempts > old(attempts) ==> member(lastAttempted, endpoints)
 //@   at return 6 assert !circuitOpen(lastErr) || attemptCount == len(endpoints)
+
+// ---- C15: credentials and hop-by-hop headers stop at the proxy
+//@ spec func sensHeader(k string) bool = canonHeader(k) == "Authorization" || canonHeader(k) == "Cookie" || canonHeader(k) == "X-Api-Key" || canonHeader(k) == "X-Auth-Token" || canonHeader(k) == "Proxy-Authorization"
+//@ spec func hopHeader(k string) bool = fold(k) == "connection" || fold(k) == "keep-alive" || fold(k) == "proxy-authenticate" || fold(k) == "proxy-authorization" || fold(k) == "te" || fold(k) == "trailer" || fold(k) == "transfer-encoding" || fold(k) == "upgrade"
+// the keys Olla itself maintains on the upstream request (canonical forms, as http.Header.Set stores them)
+//@ spec func ollaHeader(k string) bool = k == "X-Proxied-By" || k == "Via" || k == "X-Real-Ip" || k == "X-Forwarded-For" || k == "X-Forwarded-Proto" || k == "X-Forwarded-Host"
+
+// none of the header names Olla maintains itself is sensitive or hop-by-hop (pure string fact, proved once)
+//@ lemma olla_headers_benign C15: forall k string :: ollaHeader(k) ==> !sensHeader(k) && !hopHeader(k)
+
+//@ func isHopByHopHeader
+//@   property C15
+//@   ensures res == hopHeader(header)
+
+//@ func extractClientIP
+//@   property C15 C17
+//@   requires r != nil
+//@   ensures true
+
+//@ func GetProxiedByHeader
+//@   property C15
+//@   ensures true
+
+//@ func GetViaHeader
+//@   property C15
+//@   ensures true
+
+//@ spec func fwdHeader(k string) bool = k == "X-Forwarded-For" || k == "X-Forwarded-Proto" || k == "X-Forwarded-Host"
+
+//@ func updateForwardedHeaders
+//@   property C15
+//@   requires proxyReq != nil && originalReq != nil && proxyReq.Header != nil && proxyReq.Header != originalReq.Header
+//@   modifies proxyReq.Header[all]
+//@   ensures proxyReq.Header == old(proxyReq.Header)
+//@   ensures forall k string :: !fwdHeader(k) ==> has(proxyReq.Header, k) == old(has(proxyReq.Header, k))
+//@   ensures forall k string :: has(proxyReq.Header, k) ==> old(has(proxyReq.Header, k)) || fwdHeader(k)
+//@   ensures forall k string :: !fwdHeader(k) ==> proxyReq.Header[k] == old(proxyReq.Header[k])
+//@   ensures joinOf(originalReq.Header["X-Forwarded-For"], ", ") != "" ==> len(proxyReq.Header["X-Forwarded-For"]) == 1 && hasPrefix(proxyReq.Header["X-Forwarded-For"][0], joinOf(originalReq.Header["X-Forwarded-For"], ", "))
+
+//@ func CopyHeaders
+//@   property C15
+//@   uses olla_headers_benign
+//@   requires proxyReq != nil && originalReq != nil && proxyReq != originalReq
+//@   requires proxyReq.Header == nil || (proxyReq.Header != originalReq.Header && (forall k string :: !has(proxyReq.Header, k)))
+//@   modifies proxyReq.Header, proxyReq.Host, proxyReq.Header[all]
+//@   loop 1 invariant proxyReq.Header != nil && proxyReq.Header != originalReq.Header
+//@   loop 1 invariant forall k string :: has(originalReq.Header, k) == old(has(originalReq.Header, k)) && originalReq.Header[k] == old(originalReq.Header[k])
+//@   loop 1 invariant forall k string :: has(proxyReq.Header, k) ==> !sensHeader(k) && !hopHeader(k) && has(originalReq.Header, k) && proxyReq.Header[k] == originalReq.Header[k]
+//@   loop 1 invariant forall k string :: seen(k) && !sensHeader(k) && !hopHeader(k) ==> has(proxyReq.Header, k) && proxyReq.Header[k] == originalReq.Header[k]
+//@   ensures proxyReq.Header != nil
+//@   ensures forall k string :: has(proxyReq.Header, k) ==> !sensHeader(k) && !hopHeader(k)
+//@   ensures forall k string :: has(originalReq.Header, k) && !sensHeader(k) && !hopHeader(k) && !ollaHeader(k) ==> has(proxyReq.Header, k) && proxyReq.Header[k] == originalReq.Header[k]
+//@   ensures forall k string :: has(proxyReq.Header, k) && !ollaHeader(k) ==> has(originalReq.Header, k)
+// existing Via / X-Forwarded-For values are kept: the upstream value starts with strings.Join of ALL client values
+// (strings.Join contains every element: trusted model), Olla's own token is appended after them.
+// (Via: proved where it is written and again just before the last call, whose contract leaves every key other than
+// the three X-Forwarded-* ones untouched; the same clause as a postcondition exceeds the solvers' time limit.)
+//@   at call updateForwardedHeaders 1 assert len(proxyReq.Header["Via"]) == 1 && (joinOf(originalReq.Header["Via"], ", ") != "" ==> hasPrefix(proxyReq.Header["Via"][0], concat(joinOf(originalReq.Header["Via"], ", "), ", ")))
+//@   ensures joinOf(originalReq.Header["X-Forwarded-For"], ", ") != "" ==> len(proxyReq.Header["X-Forwarded-For"]) == 1 && hasPrefix(proxyReq.Header["X-Forwarded-For"][0], joinOf(originalReq.Header["X-Forwarded-For"], ", "))
+//@   replay core_copyheaders : len(originalReq.Header["Via"]) ; len(originalReq.Header["X-Forwarded-For"])
